@@ -2,6 +2,7 @@
    Proofs.v; the driver pins the statements with [Check] and prints the
    assumptions on every run. *)
 From Yv Require Import Common.Base C14.Model C14.Spec C14.Run C14.Chain C14.Proofs C14.ProofsPipe C14.ProofsRun C14.ProofsChain C14.ProofsUtf8 C14.ChainSpur C14.ProofsChainSpur C14.Blocking C14.ProofsBlocking.
+From Yv Require Import Gen.Gen_Consts.
 
 (* received ++ pipe content ++ unsent = payload, in every reachable state, for
    every configuration and every schedule (no hypothesis at all) *)
@@ -172,6 +173,15 @@ Theorem blocking_write_appends_in_order :
     /\ rrefs p' = rrefs p /\ wrefs p' = wrefs p.
 Proof. exact write_full_appends. Qed.
 
+(* TIE BY TRANSLATION: the configuration the theorems are instantiated with is
+   the one the source declares now (translator/consts.py reads PIPE_BUF and
+   PIPE_SIZE out of yash-env/src/system/virtual/file_body.rs on every run), and
+   it satisfies the hypothesis [cfg_ok] of the theorems above *)
+Theorem cfg_repo_is_source : cfg_repo = mkCfg gen_pipe_buf gen_pipe_size.
+Proof. reflexivity. Qed.
+Theorem source_cfg_ok : cfg_ok (mkCfg gen_pipe_buf gen_pipe_size).
+Proof. rewrite <- cfg_repo_is_source. unfold cfg_ok, cfg_repo. cbn [pbuf psize]. split; apply Nat.leb_le; vm_compute; reflexivity. Qed.
+
 Print Assumptions pipe_conservation.
 Print Assumptions blocking_write_appends_in_order.
 Print Assumptions chain_spurious_conservation.
@@ -200,3 +210,5 @@ Print Assumptions strip_trailing_newlines_unique.
 Print Assumptions strip_oracle_iff.
 Print Assumptions strip_nl_as_trailing.
 Print Assumptions heredoc_bytes_exact.
+Print Assumptions cfg_repo_is_source.
+Print Assumptions source_cfg_ok.
